@@ -44,7 +44,7 @@ def run(ctx):
         driven += 1
         for f in c["findings"]:
             ctx.violation(f["sig"], f["detail"], dict(slim(c), finding=f))
-    if driven == 0 or summary["checks"] == 0:
+    if (driven == 0 or summary["checks"] == 0) and not ctx.violations:     # with violations the run is not vacuous, it failed
         raise Broken("vacuous: nothing driven")
     ctx.coverage = {
         "states": states, "transitions": states, "traces_validated_against_impl": driven, "value_checks": summary["checks"],
